@@ -73,7 +73,16 @@ def _g(rng):
 
 
 def _pos(rng):
-    return logu(rng, 0.05, 20)
+    # scale parameters (densities, speeds, temperatures): one draw in four is a whole number given as a Python int, the
+    # way a user types rho0=2 (an array that takes its dtype from the parameter truncates every value)
+    v = logu(rng, 0.05, 20)
+    if rng.random() < INT_RATE:
+        return int(max(1, round(v)))
+    return v
+
+
+# (a check may raise this to 1.0 around a draw to schedule the integer-typed case instead of waiting for it)
+INT_RATE = 0.25
 
 
 def dom_rt(tlo=0.05, thi=5.0, rlo=0.05, rhi=5.0):
